@@ -28,21 +28,21 @@ type Rule struct {
 
 func (r Rule) scalar() string { return strings.Trim(r.Val, `"`) }
 
-func Obj(pp ...Prop) *S           { return &S{K: "obj", P: pp} }
-func Arr(ii ...*S) *S             { return &S{K: "arr", I: ii} }
-func Int(v string) *S             { return &S{K: "int", V: v} }
-func Str(v string) *S             { return &S{K: "str", V: v} }
-func Bool(v string) *S            { return &S{K: "bool", V: v} }
-func Null() *S                    { return &S{K: "null", V: "null"} }
-func Float(v string) *S           { return &S{K: "float", V: v} }
-func Ref(t string) *S             { return &S{K: "ref", V: t} }
-func Or(tt ...string) *S          { return &S{K: "or", V: strings.Join(tt, " | ")} }
-func P(k string, s *S) Prop       { return Prop{k, s} }
+func Obj(pp ...Prop) *S            { return &S{K: "obj", P: pp} }
+func Arr(ii ...*S) *S              { return &S{K: "arr", I: ii} }
+func Int(v string) *S              { return &S{K: "int", V: v} }
+func Str(v string) *S              { return &S{K: "str", V: v} }
+func Bool(v string) *S             { return &S{K: "bool", V: v} }
+func Null() *S                     { return &S{K: "null", V: "null"} }
+func Float(v string) *S            { return &S{K: "float", V: v} }
+func Ref(t string) *S              { return &S{K: "ref", V: t} }
+func Or(tt ...string) *S           { return &S{K: "or", V: strings.Join(tt, " | ")} }
+func P(k string, s *S) Prop        { return Prop{k, s} }
 func (s *S) R(k, v, tok string) *S { s.Rules = append(s.Rules, Rule{k, v, tok}); return s }
-func (s *S) N(note string) *S     { s.Note = note; return s }
-func (s *S) Optional() *S         { return s.R("optional", "true", "boolean") }
-func (s *S) Min(v string) *S      { return s.R("min", v, "number") }
-func (s *S) Enum(e string) *S     { return s.R("enum", e, "reference") }
+func (s *S) N(note string) *S      { s.Note = note; return s }
+func (s *S) Optional() *S          { return s.R("optional", "true", "boolean") }
+func (s *S) Min(v string) *S       { return s.R("min", v, "number") }
+func (s *S) Enum(e string) *S      { return s.R("enum", e, "reference") }
 
 func (s *S) hasAnn() bool { return len(s.Rules) > 0 || s.Note != "" }
 
